@@ -123,6 +123,13 @@ func genPlan(r *core.Rand, tier string) any {
 		}
 	}
 	n := r.Range(3, 12)
+	if r.Chance(2, 5) {
+		// ignore rules plus files they may cover, early in the history
+		p.Steps = append(p.Steps, Step{Kind: "write", A: 21 + r.Intn(3), B: r.Intn(96)})
+		for k := r.Range(1, 2); k > 0; k-- {
+			p.Steps = append(p.Steps, Step{Kind: "write", A: r.Pick2(9, 10, 11, 12, 13, 14, 15, 16, 7, 8), B: r.Intn(96)})
+		}
+	}
 	for len(p.Steps) < n {
 		s := Step{Kind: bag[r.Intn(len(bag))], A: r.Intn(96), B: r.Intn(96), F: r.Bool()}
 		p.Steps = append(p.Steps, s)
@@ -366,10 +373,10 @@ func classOf(p string, isDir bool, x index, w wtree, ig *ignorer, div string) st
 		return "type-change"
 	case link:
 		return "symlink"
-	case ig.ignored(p, isDir || (inW && n.kind == 'd')):
-		return "ignored"
 	case div == "index-wrong-mode", inW && inX && n.kind == 'f' && n.exec != (e.mode == 0o100755):
 		return "exec"
+	case ig.ignored(p, isDir || (inW && n.kind == 'd')):
+		return "ignored"
 	case isDir:
 		return "empty-dir"
 	case strings.Contains(p, "/"):
@@ -508,16 +515,22 @@ func execPlan(t *testing.T, pa any) (out core.Outcome) {
 	if p.TickMs >= 1000 {
 		d.Tick = time.Second
 	}
-	var trace []string
+	var trace, detail []string
 	logf := func(format string, args ...any) {
 		if len(trace) < 500 {
 			trace = append(trace, fmt.Sprintf(format, args...))
 		}
 	}
 	finish := func() core.Outcome {
-		out.Trace = trace
 		out.LogHash = core.HashStrings(trace)
-		out.StateHash = d.Digest("/w", nil)
+		out.Trace = trace
+		if len(detail) > 0 {
+			out.Trace = append(append([]string{}, trace...), "errors returned by go-git (not part of the hashed log):")
+			out.Trace = append(out.Trace, detail...)
+		}
+		// loose objects written by a call that then failed are not part of the
+		// end state (see above)
+		out.StateHash = d.Digest("/w", func(p string) bool { return strings.HasPrefix(p, "/w/.git/objects/") })
 		out.Steps = len(p.Steps)
 		return out
 	}
@@ -680,6 +693,9 @@ func execPlan(t *testing.T, pa any) (out core.Outcome) {
 		case "rmglob":
 			op = "rm-glob"
 			pattern := rmGlobs[mod(s.A, len(rmGlobs))]
+			if !hasMeta(pattern) {
+				op = "rm-glob-literal"
+			}
 			r = gitRm(mx, pre, pattern)
 			gitCmds = [][]string{{"rm", "-r", "-f", "-q", "--", pattern}}
 			call = func() error { return wt.RemoveGlob(pattern) }
@@ -762,7 +778,16 @@ func execPlan(t *testing.T, pa any) (out core.Outcome) {
 			continue
 		}
 		cerr = call()
-		logf("step %d: %s: %s", i, desc, porc.ErrKind(cerr))
+		// Add of a directory, add -A, AddGlob and commit -a walk a Go map: when
+		// several paths would fail, which error comes first (and which blobs were
+		// written before it) is not a function of the plan. The error text is
+		// shown in the trace but kept out of the hashed event log.
+		if cerr == nil {
+			logf("step %d: %s: ok", i, desc)
+		} else {
+			logf("step %d: %s: error", i, desc)
+			detail = append(detail, fmt.Sprintf("step %d: %v", i, cerr))
+		}
 		for _, c := range statePresent(mx, pre, ig) {
 			out.Probe("state:" + c)
 		}
@@ -838,7 +863,9 @@ func execPlan(t *testing.T, pa any) (out core.Outcome) {
 		div, dp, isDir, msg := compareState(r.idx, r.wt, gotX, prob, gotW, p.StrictDirs || p.Git)
 		if div != "" {
 			class := "plain"
-			if dp != "" {
+			if isDir {
+				class = "empty-dir" // the divergence is about a directory, whatever else is true of it
+			} else if dp != "" {
 				class = classOf(dp, isDir, mx, pre, ig, div)
 			}
 			out.Fail(fmt.Sprintf("C28|%s|%s|%s", op, div, class), "step %d (%s) returned nil: %s", i, op, msg)
@@ -972,10 +999,10 @@ func TestCheck(t *testing.T) {
 		},
 		Real:           []string{"Worktree.Add/AddWithOptions/AddGlob", "Worktree.Remove/RemoveGlob", "Worktree.Move", "Worktree.Clean", "Worktree.Commit (autoAddModifiedAndDeleted, buildTreeHelper.BuildTree, updateHEAD)", "Worktree.Status", "gitignore", "index encoder/decoder", "storage/filesystem"},
 		Stub:           []string{"disk (simfs), manual clock", "thorough tier: real git 2.39 in a scratch repository as a second oracle for the model"},
-		Runs:           map[string]int{"quick": 40000, "thorough": 1000000},
+		Runs:           map[string]int{"quick": 160000, "thorough": 2000000},
 		NewPlan:        func() any { return &Plan{} },
 		Gen:            genPlan,
 		Exec:           execPlan,
-		RequiredProbes: []string{"judged:add-file", "judged:add-dir", "judged:add-all", "judged:add-glob", "judged:rm-file", "judged:rm-dir", "judged:rm-glob", "judged:mv", "judged:clean", "judged:clean-dir", "judged:commit", "judged:commit-all", "commit-verified", "state:symlink", "state:exec", "state:type-change", "state:ignored", "state:empty-dir", "state:deleted"},
+		RequiredProbes: []string{"judged:add-file", "judged:add-dir", "judged:add-all", "judged:add-glob", "judged:rm-file", "judged:rm-dir", "judged:rm-glob", "judged:rm-glob-literal", "judged:mv", "judged:clean", "judged:clean-dir", "judged:commit", "judged:commit-all", "commit-verified", "state:symlink", "state:exec", "state:type-change", "state:ignored", "state:empty-dir", "state:deleted"},
 	})
 }
